@@ -2343,6 +2343,21 @@ theorem B_cascade_sound (a b : M2 K) (Z0 : K) (p q r : Port K) (hc : Cascade p q
   obtain ⟨h3, h4⟩ := hb
   constructor <;> grind
 
+/-- (table check over the regenerated table) `AMatrix.chain(TP)` / `BMatrix.chain(TP)` bring their
+    argument to their own representation before multiplying (its raw entries are NOT used whatever its class) -/
+theorem chainArgConv_match : Gen.chainArgConv = [("A", "Aparams"), ("B", "Bparams")] := by decide
+
+/-- cascading an A matrix with a matrix given in ANY representation X (converted by a sound `f`) -/
+theorem A_chain_conv_sound {X : Rep} {f : M2 K → K → M2 K} {ok : M2 K → K → Prop} (hf : SoundConv X .A f ok)
+    (a b : M2 K) (Z0 : K) (p q r : Port K) (hc : Cascade p q r) (o : ok b Z0)
+    (ha : rel .A a Z0 p) (hb : rel X b Z0 q) : rel .A (A_chain a (f b Z0)) Z0 r :=
+  A_chain_sound a _ Z0 p q r hc ha ((hf b Z0 q o).mp hb)
+
+theorem B_chain_conv_sound {X : Rep} {f : M2 K → K → M2 K} {ok : M2 K → K → Prop} (hf : SoundConv X .B f ok)
+    (a b : M2 K) (Z0 : K) (p q r : Port K) (hc : Cascade p q r) (o : ok b Z0)
+    (ha : rel .B a Z0 p) (hb : rel X b Z0 q) : rel .B (B_chain a (f b Z0)) Z0 r :=
+  B_chain_sound a _ Z0 p q r hc ha ((hf b Z0 q o).mp hb)
+
 /-- chains of three associate, so "signal order" is well defined -/
 theorem A_chain_assoc (a b c : M2 K) : A_chain (A_chain a b) c = A_chain a (A_chain b c) := by
   simp only [A_chain, M2.mul, M2.mk.injEq]; refine ⟨?_, ?_, ?_, ?_⟩ <;> ring
